@@ -841,6 +841,13 @@ def check_C16(tier, seed, rest):
     defs.append(corpus.mk("det_luts", [corpus.rx("[%s]+[0-9]" % c) for c in ["a-c", "d-fx", "g-iy", "j-lz", "m-oA", "p-rB", "s-uC", "v-wD", "E-GE", "H-JF", "K-MG", "N-PH"]]))
     defs.append(corpus.mk("det_errs", [corpus.rx("[a-f]+"), corpus.rx("[d-k]+"), corpus.rx("[j-p]+"), corpus.rx("[o-z]+"), corpus.rx("[a-z]{2}")]))
     defs.append(corpus.mk("det_kw", [corpus.tok(k) for k in ["as", "async", "await", "break", "const", "continue", "crate", "dyn", "else", "enum", "extern", "false", "fn", "for", "if", "impl", "in", "let", "loop", "match", "mod", "move", "mut", "pub", "ref", "return", "self", "static", "struct", "super", "trait", "true", "type", "unsafe", "use", "where", "while"]] + [corpus.rx(r"\p{XID_Start}\p{XID_Continue}*")]))
+    # rejected definitions whose diagnostics have something to order: several conflict sets that share their lowest
+    # pattern, conflict sets nested in one another, conflicts next to an empty match, many UTF-8 errors
+    defs.append(corpus.mk("det_share_low", [corpus.rx("[ab]"), corpus.tok("a"), corpus.tok("b")]))
+    defs.append(corpus.mk("det_share_low4", [corpus.rx("[a-d]"), corpus.tok("d"), corpus.tok("c"), corpus.tok("b"), corpus.tok("a")]))
+    defs.append(corpus.mk("det_nested_sets", [corpus.rx("[ab]x?"), corpus.rx("ax?"), corpus.rx("a"), corpus.rx("[ab]")]))
+    defs.append(corpus.mk("det_share_high", [corpus.tok("a"), corpus.tok("b"), corpus.rx("[ab]")]))
+    defs.append(corpus.mk("det_many_nonutf8", [corpus.rx(b"\xff"), corpus.rx(b"\xfe+"), corpus.tok(b"\xfd"), corpus.rx("[a-z]")], [corpus.skip(b"\xfc")]))
     seen = set()
     defs = [d for d in defs if not (d["id"] in seen or seen.add(d["id"]))]
     r = front.det_run(tier, seed, defs)
